@@ -386,6 +386,24 @@ func setCL(r *rng, np int, emit func(op string, exp string)) {
 			emit(fmt.Sprintf("K CalcAmountQuoteDelta %s %s %s %s", liq, pa, pb, b2s(ru)), guard(func() string {
 				return rawOf(lptypes.CalcAmountQuoteDelta(dec(liq), dec(pa), dec(pb), ru))
 			}))
+			if ext {
+				// directed: only the LAST assertion of the kernel (Ceil) decides — price gap exactly 1, liquidity within one unit
+				// below the bound, so Mul is exact and in range and Ceil steps over 2^256*10^18 (or lands on a whole number below)
+				qa := r.decRaw(30, false)
+				qb := new(big.Int).Add(qa, prec)
+				ql := new(big.Int).Sub(decRange, big.NewInt(1+int64(r.n(1000000))))
+				switch r.n(3) {
+				case 0:
+					ql = new(big.Int).Sub(decRange, new(big.Int).Mul(prec, big.NewInt(int64(1+r.n(3))))) // whole number: Ceil is the identity
+				case 1:
+					ql = new(big.Int).Sub(ql, prec) // one below: Ceil stays in range
+				}
+				for _, up := range []bool{true, false} {
+					emit(fmt.Sprintf("K CalcAmountQuoteDelta %s %s %s %s", ql, qa, qb, b2s(up)), guard(func() string {
+						return rawOf(lptypes.CalcAmountQuoteDelta(dec(ql), dec(qa), dec(qb), up))
+					}))
+				}
+			}
 			rem := decRaw(35, false)
 			pl := decRaw(40, false)
 			emit(fmt.Sprintf("K SquareRoundUp %s", pa), guard(func() string { return rawOf(lptypes.SquareRoundUp(dec(pa))) }))
